@@ -756,3 +756,32 @@ def x_rawlimit(p):
         out = outcome_class(e)
     return {"fn": "rawlimit", "id": f"{p['kind']} min={p['min']} max={p['max']} init={p['init']} steps={[(s['op'], s['col'], s['amount']) for s in p['steps']]}",
             "out": out, "nsteps": len(p["steps"]), "steps": steps, "above": viol_up, "below": viol_down}
+
+
+# ----------------------------------------------------------------------------- C08 across object life times
+@executor("poslife")
+def x_poslife(p):
+    """One worklist, many short-lived labware of different geometries (created, used once, dropped): the emitted position
+    depends on the geometry of the labware in hand only (nothing may be remembered under the identity of a dead object)."""
+    import gc
+
+    rt = robotools()
+    cls = rt.EvoWorklist if p["dev"] == "evo" else rt.FluentWorklist
+    wl = cls(max_volume=1000)
+    out = []
+    exc = None
+    try:
+        for g in p["geoms"]:
+            R, C, V, w = g["rows"], g["cols"], g["vrows"], g["well"]
+            lw = rt.Trough("L", V, C, min_volume=0, max_volume=1000, initial_volumes=500) if V else \
+                rt.Labware("L", R, C, min_volume=0, max_volume=1000, initial_volumes=500)
+            n0 = len(wl)
+            wl.aspirate(lw, wid(*w), 1)
+            recs = [r for r in list(wl)[n0:] if r.startswith("A;")]
+            pos = int(recs[0].split(";")[4]) if len(recs) == 1 else -1
+            out.append({"rows": R, "cols": C, "vrows": V, "well": list(w), "pos": pos})
+            del lw
+            gc.collect()
+    except Exception as e:  # noqa
+        exc = e
+    return {"fn": "poslife", "id": f"{p['dev']} {len(p['geoms'])} labware", "dev": p["dev"], "out": outcome_class(exc), "n": len(p["geoms"]), "seen": out}
